@@ -517,6 +517,23 @@ class World(object):
             self.rescan()
         return out
 
+    def op_rebuild(self, h, dh, variant):
+        """A partner document rebuilt from dh's captured content (see rebuild.py)."""
+        from . import rebuild
+
+        if h in self.containers:
+            raise Skip("dup")
+        d = self.doc(dh)
+        out = self._call(lambda: rebuild.rebuild(d, variant))
+        if out.status == "ok":
+            doc, info = out.result
+            out.result = doc
+            out.info.update(info)
+            out.info["sum"] = info
+            self.register_container(h, doc, "doc")
+            self.rescan()
+        return out
+
     # round trips through the baseline I/O configuration --------------------
     def op_roundtrip(self, h, dh, fmt, wopts, io_w, io_r):
         """serialize(format=fmt, **wopts) then deserialize; new document gets handle h.
